@@ -30,6 +30,10 @@ def gen_reconnect(seed, opts=None):
         plan['connect_delay'] = _pick(rng, [(1, ['hops', rng.randint(1, 5)]), (1, ['time', _pick(rng, [(2, 0.001), (1, 0.02)])])])
     if rng.random() < 0.4:
         plan['on_close_sleep'] = _pick(rng, [(1, 0.0005), (1, 0.02), (1, 0.5)])
+    if rng.random() < 0.3:
+        # an application that asks for a reconnect from on_close in any case - also when something else (the script, the
+        # keepalive-timeout callback) has already asked for this very connection: one reconnect, not two
+        plan['on_close_also_reconnects'] = True
     big = rng.random() < 0.4
     if big:
         # servers that fragment what they send, and a link that delivers it piecemeal: a connection can end in the
@@ -317,6 +321,9 @@ def _run(world, plan):
                 await rs.reconnect()
                 if plan.get('on_close_sleep'):
                     await asyncio.sleep(plan['on_close_sleep'])  # the handler goes on doing something after asking to reconnect
+            elif plan.get('on_close_also_reconnects') and k in requested and not state.get('closing'):
+                world.rec('act', ep='client', what='reconnect_again', via='on_close', conn=k)
+                await rs.reconnect()
 
         async def on_timeout_hook(rs):
             k = state['conn']
@@ -417,6 +424,7 @@ def _run(world, plan):
         pass
 
     async def closer():
+        state['closing'] = True
         try:
             await world.endpoints['client'].close()
         except Exception as e:
